@@ -558,9 +558,9 @@ def gaugeVar := "c.concurrentCommands"
 def limitVar := "c.threadSafeConfig.Execution.MaxConcurrentRequests"
 
 def tracked (body : String) : Bool :=
-  TrCall.tracked body || (body.splitOn " ").any fun t => t == gaugeVar || t == limitVar
+  TrCall.tracked body || body == "in-run" || (body.splitOn " ").any fun t => t == gaugeVar || t == limitVar
 
-def expected (s : Shared) (l : Local) : Option String :=
+def expected (marker : String) (s : Shared) (l : Local) : Option String :=
   let ldFO := s!"load {TrTrans.fo} -> {s.t.forceOpen}"
   let ldFC := s!"load {TrTrans.fc} -> {s.t.forcedClosed}"
   let ldFl := s!"load c.isOpen -> {s.t.isOpen}"
@@ -571,57 +571,57 @@ def expected (s : Shared) (l : Local) : Option String :=
   | .askAllow | .askPrevent | .deliverShort | .vetoed | .deliverReject | .classify | .deliver _ | .askShouldOpen _ => none
   | .gaugeAdd => some s!"add {gaugeVar} 1 -> {s.gauge + 1}"
   | .loadLimit _ => some s!"load {limitVar} -> {s.limit}"
-  | .invoke => some "run-invoked"
+  | .invoke => some marker
   | .trans tl _ => TrTrans.expected s.t tl
   | .gaugeDec _ => some s!"add {gaugeVar} -1 -> {s.gauge - 1}"
   | .done _ => none
 
-def isSilent (s : Shared) (l : Local) : Bool :=
+def isSilent (marker : String) (s : Shared) (l : Local) : Bool :=
   match l.pc with
   | .done _ => false
-  | _ => (expected s l).isNone
+  | _ => (expected marker s l).isNone
 
-def advanceSilent (c : Config Shared Local) (i : Nat) : Nat → Config Shared Local
+def advanceSilent (marker : String) (c : Config Shared Local) (i : Nat) : Nat → Config Shared Local
   | 0 => c
   | fuel + 1 =>
     match c.locals[i]? with
-    | some l => if isSilent c.shared l then
+    | some l => if isSilent marker c.shared l then
         (match step i c.shared l with
-         | some (s', l') => advanceSilent { shared := s', locals := c.locals.set i l' } i fuel
+         | some (s', l') => advanceSilent marker { shared := s', locals := c.locals.set i l' } i fuel
          | none => c)
       else c
     | none => c
 
-def conform (c : Config Shared Local) : List String → List String
+def conform (marker : String) (c : Config Shared Local) : List String → List String
   | [] => []
   | line :: rest =>
     match line.splitOn " " with
     | ["R", iS, what] =>
       (match iS.toNat? with
-       | none => "bad-line" :: conform c rest
+       | none => "bad-line" :: conform marker c rest
        | some i =>
-         let c := advanceSilent c i 8
+         let c := advanceSilent marker c i 8
          let e := match resultOf c i with | some (.ran _) => "ran" | some .shed => "shed" | some .manual => "ran" | some .rejected => "rejected" | some .panicked => "panicked" | none => "nothing"
-         if e == what then "ok" :: conform c rest
-         else s!"MISMATCH thread {i}: in the whole-call model the call ends as [{e}], the code reports [{what}]" :: conform c rest)
+         if e == what then "ok" :: conform marker c rest
+         else s!"MISMATCH thread {i}: in the whole-call model the call ends as [{e}], the code reports [{what}]" :: conform marker c rest)
     | tidS :: toks =>
       let body := " ".intercalate toks
-      if !tracked body then "skip" :: conform c rest else
+      if !tracked body then "skip" :: conform marker c rest else
       (match tidS.toNat? with
-       | none => "bad-line" :: conform c rest
+       | none => "bad-line" :: conform marker c rest
        | some tid =>
-         let c := advanceSilent c tid 8
+         let c := advanceSilent marker c tid 8
          match c.locals[tid]? with
-         | none => s!"MISMATCH no such thread {tid}" :: conform c rest
+         | none => s!"MISMATCH no such thread {tid}" :: conform marker c rest
          | some l =>
-           match expected c.shared l with
-           | none => s!"MISMATCH whole-call model expects nothing more from thread {tid} but the code did: {body}" :: conform c rest
+           match expected marker c.shared l with
+           | none => s!"MISMATCH whole-call model expects nothing more from thread {tid} but the code did: {body}" :: conform marker c rest
            | some e =>
-             if e != body then s!"MISMATCH thread {tid}: whole-call model expects [{e}] code did [{body}]" :: conform c rest
+             if e != body then s!"MISMATCH thread {tid}: whole-call model expects [{e}] code did [{body}]" :: conform marker c rest
              else match step tid c.shared l with
-               | some (s', l') => "ok" :: conform { shared := s', locals := c.locals.set tid l' } rest
-               | none => s!"MISMATCH thread {tid}: [{body}] is not enabled in the whole-call model" :: conform c rest)
-    | _ => "bad-line" :: conform c rest
+               | some (s', l') => "ok" :: conform marker { shared := s', locals := c.locals.set tid l' } rest
+               | none => s!"MISMATCH thread {tid}: [{body}] is not enabled in the whole-call model" :: conform marker c rest)
+    | _ => "bad-line" :: conform marker c rest
 
 end TrRun
 
@@ -629,7 +629,15 @@ end TrRun
 def suiteTrRun (kvs : List (String × String)) (lines : List (String × String)) : List String :=
   let jobs : List Conc.Run.Job := ((kvGet kvs "ops").getD "").toList.map fun ch =>
     if ch == 'O' then .open else if ch == 'F' then .call { failed := true, shouldOpen := true } else .call {}
-  (TrRun.conform (Conc.Run.init false false (kvBool kvs "init" false) (-1) jobs) (lines.map (·.1))).map fun r => r ++ "\t-"
+  (TrRun.conform "run-invoked" (Conc.Run.init false false (kvBool kvs "init" false) (-1) jobs) (lines.map (·.1))).map fun r => r ++ "\t-"
+
+/-- the `gauge` scenario (callers that succeed, fail or PANIC against a finite run limit; a collector that may panic on a
+    rejection) judged against Conc/Run: admission reads, `Add(1)`, the limit read, the invocation, the reads of
+    checkSuccess / checkErrFailure / attemptToOpen and the deferred `Add(-1)` on EVERY exit, in the model's order -/
+def suiteTrRunGauge (kvs : List (String × String)) (lines : List (String × String)) : List String :=
+  let jobs : List Conc.Run.Job := ((kvGet kvs "acts").getD "").toList.map fun ch =>
+    if ch == 's' then .call {} else if ch == 'p' then .call { panics := true } else .call { failed := true }
+  (TrRun.conform "in-run" (Conc.Run.init false false false (kvInt kvs "mc" 10) jobs) (lines.map (·.1))).map fun r => r ++ "\t-"
 
 /-- header of the `shed` scenario: init=(0|1) ops=<O|F|S per thread>; the closer admits nobody and never closes,
     the opener says open after every failure -/
